@@ -441,7 +441,7 @@ class Run:
                     self._nontriv.add(h); st["nontrivial"] += 1
             why = safe_pred(stream, ops, io)
             if why:
-                pred_fail.append((ops, why))
+                pred_fail.append((ops, why, io, mo))
                 # a stream whose model mirrors a recorded finding keeps comparing the cases that show it
                 if getattr(stream, "compare_known", False) and io_c != mo_c and \
                         self.known_finding(dict(stream=stream.name, ops=ops, impl=None, model=None, why=why, kind="predicate")):
@@ -458,10 +458,10 @@ class Run:
         reported = 0
         # one representative (the shortest case) per class of reason, so distinct violations are all reported
         classes = {}
-        for ops, why in sorted(pred_fail, key=lambda x: len(x[0])):
-            classes.setdefault(re.sub(r"\d+", "N", why)[:80], (ops, why))
+        for ops, why, io0, mo0 in sorted(pred_fail, key=lambda x: len(x[0])):
+            classes.setdefault(re.sub(r"\d+", "N", why)[:80], (ops, why, io0, mo0))
         tried = 0
-        for ops, why in list(classes.values()):
+        for ops, why, io0, mo0 in list(classes.values()):
             if self.known_finding(dict(stream=stream.name, ops=ops, impl=None, model=None, why=why, kind="predicate")):
                 st["known"] += 1       # recognised without shrinking
                 continue
@@ -488,6 +488,12 @@ class Run:
                     self.log(f"stream {stream.name}: a predicate failure did not reproduce in 4 re-runs (timing): {why[:160]}")
                     continue
                 why2 = again
+            note = ""
+            if why2 is None:
+                # the failure did not show again on the (unshrunk) case: report it with the outputs in which it was seen
+                if small == ops:
+                    io, mo = io0, mo0
+                note = " [seen once; the re-run of this case did not show it — outputs below are those of the run that did]"
             why = why2 or why
             info = dict(stream=stream.name, ops=small, impl=io, model=mo, why=why, kind="predicate")
             k = self.known_finding(info)
@@ -495,7 +501,7 @@ class Run:
                 st["known"] += 1
                 continue
             reported += 1
-            body = self.render(stream, small, io, mo, f"property predicate fails on the implementation: {why}")
+            body = self.render(stream, small, io, mo, f"property predicate fails on the implementation: {why}{note}")
             self.violation(f"{stream.name}-pred{reported}", body, True, why)
             if reported >= 4:
                 break
@@ -506,6 +512,8 @@ class Run:
                 break
             def differs(c):
                 a, b = stream.both(c)
+                if any(l.split(" ", 1)[0] == "bad-op" for l in a + b):
+                    return False       # an ill-formed candidate (e.g. its `dial` line is gone): not the difference being shrunk
                 return stream.canon(c, a) != stream.canon(c, b)
             small = ddmin(ops, stream.keep_prefix, differs)
             io, mo = stream.both(small)
